@@ -6,6 +6,31 @@ ALL = ["C%02d" % i for i in range(1, 21)]
 
 # id -> dict(level_text, level_note, technique, design_ref)
 CLAIMED = {
+ "C04": dict(
+   text="History invariant over the time-stamped call log of simulated children installed through the public spawn hook (production job task, paused tokio clock): at every spawn, every earlier child of the job has had its exit status collected. Bounded-exhaustive over all sequences of the 11 lifecycle controls up to length 3 (quick) / 4 (thorough) x {burst, settled} x 4 child classes, then random sequences (<=14 steps) with gaps, graces and child reaction delays drawn from one value pool so ties at timer deadlines are frequent, spawn/kill/signal failure injection and a generated select! seed.",
+   note="One schedule per (sequence, timing, select! seed) on tokio's current-thread scheduler; the simulated child replaces process-wrap's child object (a real /bin/true is still spawned underneath); real cross-thread interleavings are not explored.",
+   technique="bounded-exhaustive + proptest stateful sequences over the Job API, invariant over the simulated-child call history (virtual time)",
+   ref="DESIGN.md §3 C04"),
+ "C06": dict(
+   text="Timed-history oracle computed from the case alone (signal number, grace, child reaction delay, follower offsets) against the simulated child's call log in exact virtual time: signal first and at once, no kill before t+g, kill+reap exactly at t+g if still running, normal-priority followers held back until the process ended, replacement spawned exactly once and not before the end, ticket instants. Generated: all three graceful controls in every prior job state, graces {0,1,50,100,1000,10000} ms, reactions at g-1/g/g+1 and elsewhere, 0-5 followers of every priority at offsets around the deadline.",
+   note="Exact ties (reaction == grace, exit in the arrival instant) accept either order; signals nix cannot represent are outside the domain; real-process leg not built.",
+   technique="proptest scenario generation with a timed-history (metamorphic/time-bound) oracle on virtual time",
+   ref="DESIGN.md §3 C06"),
+ "C07": dict(
+   text="Model-free completion bound: a run() marker is sent right behind every control; per-priority FIFO and the held-back normal queue make the marker's execution instant an upper bound for the control's completion (for a graceful stop exactly min(process exit, grace expiry)). 1-4 bare ticket.await waiter tasks per ticket record their completion instants in virtual time (no timeout wrapper, so a lost wake-up is 'never'); compared with that bound, with job end for outstanding tickets, with the to_wait rule; closures must run exactly once; delete / delete_now / last-handle-drop and spawn/kill/signal failures at generated positions.",
+   note="Same medium as C04. The bound relies on per-priority FIFO, which C10 checks separately.",
+   technique="proptest stateful sequences, history invariant on waiter completion instants (virtual time) with fault injection",
+   ref="DESIGN.md §3 C07"),
+ "C09": dict(
+   text="Lock-step comparison with an executable reference model of the documented Job API (event simulation over the same case: send instants, simulated-child behaviours, injected faults) predicting the full child-call log with instants, state probes seen by run() closures, hook calls and their effect, error-handler calls, ticket resolution instants and task end. Bounded-exhaustive over a 15-control alphabet up to length 2 (quick) / 3 (thorough) x 3 child classes x 3 send patterns (+spawn failure), random sequences with distinct event times, and the general generator. The named laws (start idempotent, stop-idle no-op, restart leaves a fresh process, try-restart never starts an idle job, to_wait immediate when idle, hook once per spawn with effect) are additionally asserted directly on traces without the model.",
+   note="Where the outcome depends on the order of simultaneous events (child exit vs pending control, a parked task woken with several ready queues) the model reports a tie and only schedule-independent invariants are checked (about 20-30% of random cases, counted in evidence). Where docs are silent the model follows observed behaviour.",
+   technique="model-based testing: reference state machine vs implementation on generated and bounded-exhaustive control histories (virtual time)",
+   ref="DESIGN.md §3 C09"),
+ "C10": dict(
+   text="Marker controls record a global sequence number. Per-priority FIFO, exactly-once and non-decreasing ticket instants are asserted for bursts of 3-30 controls sent to a gated (busy), parked, or grace-timer-armed job; urgent-over-normal (delete_now pending with queued work: none of it runs, job ends at the release instant) and high-over-normal (to_wait observes the state before queued start / stop+start) are asserted where all controls are demonstrably pending when the task looks at its queues afresh; no normal control runs while a grace timer is armed; plus 2-4 concurrent senders on a multi-thread runtime (per-sender order, last-ticket-implies-all-earlier).",
+   note="Urgent-before-high has no API-visible consequence and is not asserted. For a task parked in select! the first pick is random by design of tokio::select!, so cross-priority order is only asserted for gated bursts.",
+   technique="proptest generated bursts with sequence-number invariants (virtual time) + multi-thread sampling",
+   ref="DESIGN.md §3 C10"),
  "C19": dict(
    text="Complete enumeration of the finite conversion tables (every nix signal x 3 spellings x 10 casings, every documented Windows control name, every wait status for exit codes 0-255 and signals 1-64 with/without core bit) against a reference table transcribed from signal(7) and the crate docs, plus generated --map-signal strings through the real clap parser and generated arbitrary strings for case-insensitivity. Exhaustive for the tables, sampled for free-form strings.",
    note="Linux x86-64 numbering; Windows cfg branches not executed; reference table is the harness's own transcription of POSIX numbers.",
